@@ -178,7 +178,8 @@ def find_loops(a):
         held = c.mem.get((recv[1], ())) if recv[0] == "P" else None
         if held is None and recv[0] == "P":
             held = a.read_cell(State(c.mem, c.facts), recv[1], (), None)
-        if not (_is_pipe(held) or (isinstance(held, tuple) and held and held[0] == "P" and held[3] is not None)):
+        is_range = isinstance(held, tuple) and len(held) == 3 and held[0] == "A" and isinstance(held[1], tuple) and held[1][:2] == ("adt", "core::ops::Range")
+        if not (_is_pipe(held) or is_range or (isinstance(held, tuple) and held and held[0] == "P" and held[3] is not None)):
             continue
         lp = Loop(a, c, held)
         if not lp.entries:
